@@ -1,10 +1,17 @@
-(** C15 - Reset returns the world to the behaviour of a fresh one (level: partial).
+(** C15 - Reset returns the world to the behaviour of a fresh one.
     Proved on the model: after Reset the entity pool, the entity index, the target bits and
     the lock mask are exactly those of a new world, all resources are gone, the world is
     unlocked, and component ids, resource ids, the listener and the registered filters (ids
-    and original filters) are kept.  That the retained table structure behaves like a fresh
-    one for all later operations is decided by the correspondence run (profile reset). *)
-From Arche Require Import Model.Base Model.Pool Model.World Model.Ops Proofs.Misc.
+    and original filters) are kept ([C15_reset_state]).  From ANY world satisfying the
+    invariants - entities alive, relation tables, retired tables, registered filters -
+    Reset yields a world that refines the EMPTY abstract store with the same registry,
+    with storage, graph and cache invariants intact ([C15_reset_refines]); hence every
+    history continued after a Reset (further Resets included) refines the abstract run
+    from the empty store, exactly as a new world with the same registrations does
+    ([C15_history_with_reset], compare [C01_refinement_every_history]).  Resources,
+    listeners and batch operations after Reset: correspondence run (profile reset). *)
+From Arche Require Import Model.Base Model.Pool Model.World Model.Ops Proofs.Misc
+  Proofs.Store Proofs.RelGraph Proofs.RelWorld Proofs.RelRefine Proofs.QueryExact Proofs.CacheInv Proofs.ResetInv.
 
 Theorem C15_reset_state : forall w,
   let w' := world_reset w in
@@ -14,4 +21,36 @@ Theorem C15_reset_state : forall w,
   is_locked w' = false.
 Proof. exact world_reset_abs. Qed.
 
+
+Theorem C15_reset_refines : forall w,
+  rwi w -> w_listener w = None ->
+  R (world_reset w) (mkAS [] [] [] (w_reg w)) /\ cache_ok (world_reset w) /\ rwi (world_reset w).
+Proof. exact reset_refines. Qed.
+
+(** One step and whole histories of the core operations, filter (un)registration and Reset. *)
+Theorem C15_step_with_reset : forall w A o,
+  R w A -> cache_ok w -> op_pre3 A o ->
+  R (fst (fst (step w o))) (astep A o (snd (fst (step w o)))) /\ cache_ok (fst (fst (step w o))).
+Proof. exact full_step. Qed.
+
+Theorem C15_history_with_reset : forall ops w A,
+  R w A -> cache_ok w -> pre_run3 w A ops ->
+  R (run w ops) (snd (arun w A ops)) /\ cache_ok (run w ops).
+Proof. exact full_history. Qed.
+
+(** A reset world and a new world with the same registry refine the same abstract state. *)
+Theorem C15_reset_like_new : forall w A,
+  R w A -> cache_ok w ->
+  R (world_reset w) (mkAS [] [] [] (as_reg A)) /\ cache_ok (world_reset w).
+Proof.
+  intros w A HR C. assert (I : rwi w).
+  { pose proof HR as [[[S G] _ _] _ _ _ _]. split; [done| |done]. intros tid t Ht. by apply (so_table _ _ S tid). }
+  destruct (reset_refines w I (r_nolistener _ _ HR)) as (HR0 & C0 & _). by rewrite (r_reg _ _ HR).
+Qed.
+
+Example C15_nonvacuous : pre_run3 (world_init 4 4 64) a_init demo_reset_ops.
+Proof. exact demo_reset_pre. Qed.
+
 Print Assumptions C15_reset_state.
+Print Assumptions C15_reset_refines.
+Print Assumptions C15_history_with_reset.
